@@ -13,7 +13,7 @@
       its function by name), [denv] (denotation by variable names), [qsemv],
       [overridev], [vsubstv], [renv], [let_sem], [let_ok], [oref],
       [op_spec]. *)
-From DD Require Import Dynamic3 C01proof.
+From DD Require Import Dynamic3 DynamicAny C01proof.
 Local Open Scope string_scope.
 
 (** ** 1. Premise-free statements.  The first disjunct is the model's
@@ -33,11 +33,33 @@ Print Assumptions C09c_decorator_correct.
 
 Theorem C09c_decorator_no_signal {A} (func : MS A) Pre Post s L r s' :
   op_spec func (heldn L) Pre Post →
-  Inv s → Counts s L → Pre s → rctx s = false → max_nodes s = None →
+  Inv s → Counts s L → Pre s → rctx s = false →
   try_to_reorder func s = (r, s') →
   r ≠ Err ENeedsReordering.
 Proof. exact (try_to_reorder_no_signal func Pre Post s L r s' sifting_ok'_holds). Qed.
 Print Assumptions C09c_decorator_no_signal.
+
+(** the decorator for EVERY value of [max_nodes]: with a bounded table the
+    additional outcome is [Err ERuntime] (first attempt, sifting pass, or
+    second attempt), and the manager is then as after a success: well formed,
+    same ledger, context flag off, same reordering mode, same bound, every
+    held reference keeps number and function *)
+Theorem C09c_decorator_any {A} (func : MS A) Pre Post s L r s' :
+  op_spec func (heldn L) Pre Post →
+  Inv s → Counts s L → Pre s → rctx s = false →
+  try_to_reorder func s = (r, s') →
+  r = Err EOracle ∨
+  (Inv s' ∧ Counts s' L ∧ rctx s' = false ∧
+   (last_len s = None → last_len s' = None) ∧
+   (is_Some (last_len s) → is_Some (last_len s')) ∧
+   max_nodes s' = max_nodes s ∧
+   keeps (heldn L) s s' ∧
+   match r with
+   | Ok a => Post s a s'
+   | Err e => e = ERuntime ∧ is_Some (max_nodes s)
+   end).
+Proof. exact (try_to_reorder_any func Pre Post s L r s' sifting_ok'_holds). Qed.
+Print Assumptions C09c_decorator_any.
 
 Theorem C09c_ite_dynamic s L g u v r s' :
   Inv s → Counts s L → rctx s = false → max_nodes s = None →
